@@ -661,7 +661,7 @@ def r_resolution_map(chk, P, tier):
                         expect("to_naive_time without " + drop, kw2, got, got == ("Err", "NotEnough"))
     for kw in ({"hour_div_12": 2, "hour_mod_12": 0, "minute": 0}, {"hour_div_12": 0, "hour_mod_12": 12, "minute": 0}, {"hour_div_12": 0, "hour_mod_12": 0, "minute": 60},
                {"hour_div_12": 0, "hour_mod_12": 0, "minute": 0, "second": 61}, {"hour_div_12": 0, "hour_mod_12": 0, "minute": 0, "second": 0, "nanosecond": 10**9},
-               {"hour_div_12": -1, "hour_mod_12": 0, "minute": 0}):
+               {"hour_div_12": 2**32 - 1, "hour_mod_12": 0, "minute": 0}):
         got = fold("to_naive_time", kw)
         expect("to_naive_time out of range", kw, got, got == ("Err", "OutOfRange"))
     # date-time with a timestamp next to complete date and time fields: the timestamp must denote the same instant (for second 60 either representation of the leap second)
